@@ -67,7 +67,10 @@ func TestC02(t *testing.T) {
 		if cl.NonTrivial() {
 			r.NonTrivial(c.Graph.Canon(), c)
 		}
-		verdict(t, "C02", "expandspec", c, oracleC02(c))
+		vstat.InFlight("C02", "expandspec", c)
+		fC02 := oracleC02(c)
+		vstat.ClearInFlight("C02")
+		verdict(t, "C02", "expandspec", c, fC02)
 	})
 }
 
